@@ -1,0 +1,26 @@
+//go:build verif
+// +build verif
+
+// Contracts for deductive verification of package sync2 (comment-only; compiled only
+// with the build tag "verif"). Grammar: /verif/DESIGN.md, Appendix B.
+
+package sync2
+
+// ---------------------------------------------------------------- C31 prepared flag
+//@ property C31: (*AtomicBool).Set, (*AtomicBool).Get, (*AtomicBool).CompareAndSwap
+
+//@ func (*AtomicBool).Set
+//@   requires i != nil
+//@   assigns i.int32
+//@   ensures i.int32 == ite(n, 1, 0)
+//@ func (*AtomicBool).Get
+//@   requires i != nil
+//@   assigns \nothing
+//@   ensures ret0 <==> i.int32 != 0
+// swaps exactly when the current value is o (for the values 0/1 the methods of this type store)
+//@ func (*AtomicBool).CompareAndSwap
+//@   requires i != nil
+//@   assigns i.int32
+//@   ensures ret0 <==> old(i.int32) == ite(o, 1, 0)
+//@   ensures ret0 ==> i.int32 == ite(n, 1, 0)
+//@   ensures !ret0 ==> i.int32 == old(i.int32)
